@@ -310,11 +310,11 @@ impl<V, G> HnswIndex<V, G> {
         let mut candidates = self.search_layer(ctx, query, &[curr_ep], self.params.ef_search, 0)?;
 
         let mut results = Vec::new();
-        while let Some(Reverse((dist, id))) = candidates.pop() {
-            results.push((id, dist.into_inner()));
-            if results.len() >= k {
+        while results.len() < k {
+            let Some(Reverse((dist, id))) = candidates.pop() else {
                 break;
-            }
+            };
+            results.push((id, dist.into_inner()));
         }
         Ok(results)
     }
